@@ -3,8 +3,6 @@ package prog
 import (
 	"fmt"
 
-	"github.com/onflow/cadence/common"
-
 	"verif/harness/core"
 	"verif/harness/host"
 )
@@ -89,7 +87,6 @@ func runC34(c *core.Ctx) {
 	for _, t := range s.Txs {
 		steps = append(steps, t.Source)
 	}
-	signers := []common.Address{host.Addr(1)}
 	for step, src := range steps {
 		var obs [3]Obs
 		var pre [3]*host.Ledger
@@ -99,7 +96,7 @@ func runC34(c *core.Ctx) {
 			h := hs[ei]
 			pre[ei], preUUID[ei] = h.Ledger.Clone(), h.UUID
 			h.ResetTrace()
-			o := h.RunTx(eng, src, nil, signers, nil)
+			o := h.RunTx(eng, src, nil, signersFor(src), nil)
 			c.Eval(1)
 			if isCheckerRejection(o) && step > 0 {
 				rejected = true
@@ -140,7 +137,7 @@ func runC34(c *core.Ctx) {
 					h2.Codes[k] = v
 				}
 				h2.UUID = preUUID[ei]
-				o2 := h2.RunTx(eng, cand, nil, signers, limited())
+				o2 := h2.RunTx(eng, cand, nil, signersFor(cand), limited())
 				return observe(h2, o2), !isCheckerRejection(o2)
 			}
 			min := src
